@@ -148,6 +148,9 @@ def configs(thorough):
           prior=SRC, scripts={b'a': [('ifchange', [b's'])], b's': [('ifchange', [b'src']), ('stamp', {10: b'aaaa', 11: b'aaaa', 12: b'bbbb'})]},
           history=[dict(name='source edited, checksum of s unchanged', mutate='touch:src', expect=['s']),
                    dict(name='source edited, checksum of s changes', mutate='touch:src', expect=['a', 's'])], succeed=True, **I),
+        # two dependents of one target in one command: a.do and b.do both run `redo-ifchange c` (nested, real code)
+        C('history: ifchange a b (both scripts run redo-ifchange c); again', 'C07 C02', scripts={b'a': [('ifchange', [b'c'])], b'b': [('ifchange', [b'c'])]},
+          history=[dict(name='nothing changed', expect=[])], succeed=True, **I),
         C('history: ifchange a; a edited by hand; a removed', 'C02', targets=[b'a'],
           history=[dict(name='target edited by hand', mutate='touch:a', expect=[], content={'a': 'edited-by-user'}),
                    dict(name='edited target removed', mutate='remove:a', expect=['a'])], **I),
@@ -603,7 +606,9 @@ def judge_c07(chk, eng, cfg, st, F, outcome, val, wit):
     bad = judge_c06(chk, eng, cfg, st, F, outcome, val, wit)
     if bad:
         return bad
-    if cfg['other_locks'] or cfg['prior'] or cfg['no_do'] or any(not t for t in cfg['targets']):
+    if cfg['scripts']:
+        chk.goal('C07: two dependents request one target in one command', len([f for f in F['forks'] if f['target'] == 'c']) >= 1)
+    if cfg['other_locks'] or cfg['prior'] or cfg['no_do'] or cfg['scripts'] or any(not t for t in cfg['targets']):
         return None
     if not (allok or cfg['keep_going']):
         return None
